@@ -25,6 +25,7 @@ type C03Scn struct {
 	AdvanceMs int64     `json:"advance_ms,omitempty"` // one clock jump the scheduler may take (rolling sinks)
 	Ack       bool      `json:"ack,omitempty"`        // C20: check durability at every acknowledgement
 	Fast      bool      `json:"fast_caller,omitempty"` // property fastCaller=true (the cached call-site lookup)
+	AfterCycle bool     `json:"after_cycle,omitempty"` // builtin mode: a configuration without a root logger was live and destroyed (or rejected late) before
 	RawEvery  int       `json:"raw_every,omitempty"`   // C20: every k-th call of a client is followed by a two-line raw write through the named handle
 }
 
@@ -164,6 +165,9 @@ func (c c03) Gen(rt *rapid.T, thorough bool) any {
 		sys.Logs = []LogSpec{lg}
 		s.Sys = sys
 	}
+	if s.Mode == "builtin" {
+		s.AfterCycle = rapid.IntRange(0, 2).Draw(rt, "after_cycle") == 0
+	}
 	if c.ack && s.Mode == "refresh" {
 		s.RawEvery = rapid.SampledFrom([]int{0, 0, 1, 2}).Draw(rt, "raw_every")
 	}
@@ -209,6 +213,27 @@ func (c c03) Run(x *Exec, scn any) {
 	switch s.Mode {
 	case "builtin":
 		sinks = []sinkRec{{name: "stdout", kind: "console", layout: "TextLayout", width: 48, lo: 0, hi: 999}}
+		if s.AfterCycle {
+			// the built-in console logger also serves the time after a configuration: here one without
+			// a root logger was live and destroyed, or (odd map seeds) rejected after its loggers had started
+			cyc := &SysSpec{Style: Style{}, Props: map[string]string{}, Apps: []AppSpec{{Name: "unused", Type: "Discard"}},
+				Logs: []LogSpec{{Name: "side", Type: "Logger", Tags: []string{"zz_*"}, Refs: []RefSpec{{Ref: "unused"}}}}}
+			if s.Knobs.MapSeed%2 == 1 {
+				cyc.Props["bufferCap"] = "lots" // fails late
+			}
+			cfg := cyc.Render()
+			ok := x.do("cycle", func() {
+				call(func() {
+					if err := log.Refresh(cfg); err == nil {
+						log.Destroy()
+					}
+				})
+			})
+			if !ok {
+				o.violate("blocked", c.ID()+"/log-call-blocked", "Refresh/Destroy of a side configuration did not return: %v", x.clientsStuck())
+				return
+			}
+		}
 	case "direct":
 		switch s.Direct {
 		case "console":
